@@ -98,8 +98,15 @@ def run(ctx):
         if os.path.exists(p):
             os.remove(p)
 
-    rc, out = ctx.go_test("actor", "^TestVerifC19", ["zz_verif_C19_test.go"], timeout=600)
-    rc_c, out_c = ctx.go_test("internal/cluster", "^TestVerifC19", ["zz_verif_C19_test.go"], timeout=600)
+    # both packages in one `go test` invocation (they build and run in parallel)
+    import vlib
+    ov = ctx.overlay({"actor": ["zz_verif_C19_test.go", "zz_verif_common_test.go"],
+                      "internal/cluster": ["zz_verif_C19_test.go", "zz_verif_common_test.go"]})
+    env = vlib.go_env()
+    env.update({"VERIF_SEED": str(ctx.seed), "VERIF_TIER": ctx.tier, "VERIF_OUT": ctx.work})
+    rc, out = vlib.sh([vlib.GOBIN, "test", "-tags", "verif", "-overlay", ov, "-vet=off", "-count=1", "-run", "^TestVerifC19",
+                       "-timeout", "570s", "./actor/", "./internal/cluster/"], cwd=vlib.REPO, env=env, timeout=600)
+    rc_c, out_c = rc, out
     book_outs = read_jsonl(os.path.join(work, "c19_book_out.jsonl"))
     live_outs = read_jsonl(os.path.join(work, "c19_live_out.jsonl"))
     claim_outs = read_jsonl(os.path.join(work, "c19_claim_out.jsonl"))
